@@ -54,4 +54,8 @@ let () =
   Registry.register "eval" (fun s ->
     match list s with
     | [p; texts] -> of_sx (M.c09_eval (project_ p) (list_ str_ texts))
-    | _ -> failwith "c09-eval: bad case")
+    | _ -> failwith "c09-eval: bad case");
+  Registry.register "eval-deep" (fun s ->
+    match list s with
+    | [p; texts] -> of_sx (M.c09_eval_deep (project_ p) (list_ str_ texts))
+    | _ -> failwith "c09-eval-deep: bad case")
